@@ -42,7 +42,8 @@ type DB struct {
 	mu      sync.Mutex
 	dialect Dialect
 	rows    []row
-	Stmts   map[string]int // statement text -> executions
+	byID    map[string][]int // id -> indexes into rows (the engine's primary-key index)
+	Stmts   map[string]int   // statement text -> executions
 	Inserts int
 }
 
@@ -59,7 +60,7 @@ func Open(d Dialect) (*DB, *sql.DB) {
 	regMu.Lock()
 	seq++
 	name := fmt.Sprintf("db%d", seq)
-	db := &DB{dialect: d, Stmts: map[string]int{}}
+	db := &DB{dialect: d, Stmts: map[string]int{}, byID: map[string][]int{}}
 	reg[name] = db
 	regMu.Unlock()
 	h, err := sql.Open("sqlmini", name)
@@ -196,11 +197,12 @@ func (s *stmt) Exec(args []driver.Value) (driver.Result, error) {
 	s.db.mu.Lock()
 	defer s.db.mu.Unlock()
 	s.db.Stmts[s.text]++
-	for _, x := range s.db.rows {
-		if x.id == r.id && x.created.Equal(r.created) {
+	for _, i := range s.db.byID[r.id] {
+		if x := s.db.rows[i]; x.created.Equal(r.created) {
 			return nil, fmt.Errorf("sqlmini: duplicate entry '%s-%d' for key 'PRIMARY'", r.id, r.created.Unix())
 		}
 	}
+	s.db.byID[r.id] = append(s.db.byID[r.id], len(s.db.rows))
 	s.db.rows = append(s.db.rows, r)
 	s.db.Inserts++
 	return driver.RowsAffected(1), nil
@@ -228,7 +230,17 @@ func (s *stmt) Query(args []driver.Value) (driver.Rows, error) {
 	s.db.mu.Lock()
 	s.db.Stmts[s.text]++
 	var hit []row
-	for _, x := range s.db.rows {
+	cand := s.db.rows
+	for _, c := range conds {
+		if c.col == "id" { // use the primary-key index
+			cand = nil
+			for _, i := range s.db.byID[c.val.(string)] {
+				cand = append(cand, s.db.rows[i])
+			}
+			break
+		}
+	}
+	for _, x := range cand {
 		ok := true
 		for _, c := range conds {
 			switch c.col {
